@@ -280,7 +280,13 @@ func (s *SpecValidator) validateSchemaPropertyNames(nm string, sch spec.Schema, 
 	schc := &sch
 	res := pools.poolOfResults.BorrowResult()
 
+	followed := make(map[string]struct{})
 	for schc.Ref.String() != "" {
+		if _, ok := followed[schc.Ref.String()]; ok {
+			// a chain of references that leads back to itself: nothing to gather
+			return dups, res
+		}
+		followed[schc.Ref.String()] = struct{}{}
 		// gather property names
 		reso, err := s.resolveRef(&schc.Ref)
 		if err != nil {
@@ -325,7 +331,14 @@ func (s *SpecValidator) validateCircularAncestry(nm string, sch spec.Schema, kno
 	schn := nm
 	schc := &sch
 
+	followed := make(map[string]struct{})
 	for schc.Ref.String() != "" {
+		if _, ok := followed[schc.Ref.String()]; ok {
+			// a chain of references that leads back to itself never reaches a schema: circular ancestry
+			ancs = append(ancs, schc.Ref.String())
+			return ancs, res
+		}
+		followed[schc.Ref.String()] = struct{}{}
 		reso, err := s.resolveRef(&schc.Ref)
 		if err != nil {
 			errorHelp.addPointerError(res, err, schc.Ref.String(), nm)
